@@ -227,6 +227,11 @@ func NewBlockResultsMeta(results *consensus.BlockResults) (*BlockResultsMeta, er
 	if err := cbor.Unmarshal(results.Meta, &meta); err != nil {
 		return nil, fmt.Errorf("malformed block results metadata: %w", err)
 	}
+	for i, rs := range meta.TxsResults {
+		if rs == nil {
+			return nil, fmt.Errorf("malformed block results metadata: missing result %d", i)
+		}
+	}
 
 	return &meta, nil
 }
